@@ -35,10 +35,17 @@ NewRow == [gen |-> FALSE, ovr |-> FALSE, checked |-> None, changed |-> None,
 
 Max2(a, b) == IF a >= b THEN a ELSE b
 
-\* read_stamp (state.rs:796): MISSING, or an identity that changes with every
-\* write (mtime,size,inode,...).  Directories and symlinks are not modelled here.
+DirStamp == -2         \* Stamp::DIR: "directories change too much; detect only existence"
+
+\* read_stamp (state.rs:852): MISSING, the constant DIR for a directory, or an identity that
+\* changes with every write (mtime,size,inode,...).  For a symbolic link: the stamp of the link
+\* object itself "+" the stamp of what it points to (Stamp::with_link_target), encoded as one number.
+BaseStamp(fs, n) == IF ~fs[n].ex THEN Missing
+                    ELSE IF fs[n].dir THEN DirStamp ELSE fs[n].ver
+LinkStamp(a, b)  == 1000000 + a * 1000 + (b + 2)
 CurStamp(fs, n) == IF n = ALWAYS THEN Missing
-                   ELSE IF fs[n].ex THEN fs[n].ver ELSE Missing
+                   ELSE IF fs[n].ex /\ fs[n].lnk # "" THEN LinkStamp(fs[n].ver, BaseStamp(fs, fs[n].lnk))
+                   ELSE BaseStamp(fs, n)
 
 Exists(fs, n) == n # ALWAYS /\ fs[n].ex
 
@@ -81,8 +88,10 @@ IsChangedRow(r, rid) == r.changed # None /\ r.changed # 0 /\ r.changed >= rid
 IsFailedRow(r, rid)  == r.failed  # None /\ r.failed  # 0 /\ r.failed  >= rid
 
 \* Stamp::detect_override compares mtime and size only; every write in the model
-\* changes both, so it is plain inequality.
-DetectOverride(old, new) == old # new
+\* changes both, so it is plain inequality -- of the link object's own part for a
+\* symbolic link ("detect_override() doesn't care about the target of the link").
+OwnPart(s) == IF s >= 1000000 THEN 500000 + ((s - 1000000) \div 1000) ELSE s
+DetectOverride(old, new) == OwnPart(old) # OwnPart(new)
 
 (***************************************************************************)
 (* Edges                                                                   *)
@@ -203,7 +212,7 @@ StartSelf(w, e, t, sf, cands) ==
         w1    == IF warn THEN Save(w, t, sf1) ELSE w
     IN
     IF bad THEN [k |-> "panic", w |-> w, rv |-> 101, df |-> "", sf |-> sf, ovr |-> FALSE]
-    ELSE IF e.fs[t].ex /\ (sf1.ovr \/ ~sf1.gen) THEN
+    ELSE IF e.fs[t].ex /\ ~e.fs[t].dir /\ (sf1.ovr \/ ~sf1.gen) THEN      \* (a directory is never a static source)
         LET sf2 == IF ~sf1.ovr THEN SetStatic(sf1, new, e.rid) ELSE sf1 IN
         [k |-> "static", w |-> Save(w1, t, sf2), rv |-> 0, df |-> "", sf |-> sf2, ovr |-> warn]
     ELSE
@@ -230,7 +239,7 @@ StartSelf(w, e, t, sf, cands) ==
 (*   RecordRow the database part, evaluated after the file operation.      *)
 (***************************************************************************)
 RecOutcome(before, now, std, file, rv) ==
-    LET modified == now # Missing /\ (before = Missing \/ before # now)
+    LET modified == now # Missing /\ now # DirStamp /\ (before = Missing \/ before # now)   \* !after_t.is_dir()
         rv1 == IF modified THEN 206 ELSE IF file /\ std THEN 207 ELSE rv
     IN [rv |-> rv1,
         op |-> IF rv1 # 0 THEN "none" ELSE IF std \/ file THEN "rename" ELSE "unlink"]
